@@ -39,7 +39,7 @@ def bounded_task():
         if hit3:
             r3.replay, r3.witness = hit3, hit3["input"]
         t3 = time.time()
-        hit4 = c03.include_cases() or c03.common_cases() or c03.inherited_component_metadata() or c03.metadata_block_cases() or c03.inherited_generic_doc() or c03.generic_source_docs() or c03.pageless_entity_docs()
+        hit4 = c03.include_cases() or c03.common_cases() or c03.inherited_component_metadata() or c03.metadata_block_cases() or c03.inherited_generic_doc() or c03.generic_source_docs() or c03.pageless_entity_docs() or c03.multi_name_statement_docs()
         r4 = OR(id=f"{PROP}.Bd.parser.included_declarations", status=REFUTED if hit4 else PROVED, kind="Bd", role="bounded", target="ford.reader.FortranReader.include (real)",
                 desc="twelve declaration / documentation lines in the four marker styles, written in a module and pulled in with INCLUDE: the same variables with the same documentation; "
                      "COMMON statements of one to three blocks with one comment: every block carries it",
